@@ -21,9 +21,9 @@ CLAIMS = {
          "note": TRUST + "sqrt/root6 axiomatised (x>=0 => r>=0 and r^n = x). gen_bonded_interactions' per-molecule expansion and define substitution are decided by the bounded unit only. Known finding K8.",
          "technique": P_TECH + "; " + B_TECH},
  "C10": {"level": "other",
-         "text": "Bounded only so far: independent recount of inter-residue atom edges vs find_missing_edges / gen_params warnings (realised XOR reported, once, right names) on 41 force fields x 234 residue-graph worlds; connectivity gate on 53 topologies.",
-         "note": "No proof claimed. Known finding K13 (atom-level disconnection inside a connected residue graph is built).",
-         "technique": B_TECH},
+         "text": "Deductive: find_connecting_edges returns only molecule edges from an atom of the first residue to an atom of the second and returns a non-empty list whenever such an edge exists (four loop invariants, ghost index witnesses); find_missing_edges reports a residue-graph edge if and only if no atom-level edge joins the two residues, with both names and ids, once per edge ('never both and never neither', loop invariant over the edge sequence) - for every residue graph whose residues are disjoint sub-graphs of the molecule. Bounded: independent recount of inter-residue atom edges vs find_missing_edges / gen_params warnings (realised XOR reported, once, right names) on 41 force fields x 234 residue-graph worlds; connectivity gate on 53 topologies.",
+         "note": TRUST + "networkx Graph modelled as node table + symmetric adjacency relation; G.edges as a ghost sequence listing every adjacent pair once; degree uninterpreted with the degree lemma assumed in the body proof and certified in lean/Degree.lean (thorough tier); the generator is taken as the list of its yields. The warning loop of gen_params and the connectivity gate of gen_coords are decided by the bounded unit only. Known finding K13 (atom-level disconnection inside a connected residue graph is built).",
+         "technique": P_TECH + "; " + B_TECH},
  "C11": {"level": "other",
          "text": "Bounded only: gen_params -> file -> polyply's own reader on 56 worlds (all interaction sections incl. #ifdef/#ifndef guards, chains and branches); atoms, interactions, guards, residue graph isomorphism, and gen_coords accepting the file. The writer/reader round trip is vermouth code, outside the reach of contracts on polyply functions.",
          "note": "No proof claimed; vermouth write_molecule_itp/read_itp exercised, not verified.",
